@@ -47,6 +47,11 @@ func ptrKey(v starlark.Value) any {
 	return nil
 }
 
+func sameKey(a, b starlark.Value) bool {
+	eq, err := starlark.Equal(a, b)
+	return err == nil && eq
+}
+
 // Canon returns the canonical form of v (deep: through functions too).
 func Canon(v starlark.Value) string {
 	c := &canon{ids: map[any]int{}, deep: true, max: 200000}
@@ -112,13 +117,33 @@ func (c *canon) val(v starlark.Value) {
 		c.sb.WriteString(")")
 	case *starlark.Dict:
 		c.sb.WriteString("{")
-		for i, kv := range x.Items() {
+		items := x.Items()
+		for i, kv := range items {
 			if i > 0 {
 				c.sb.WriteString(",")
 			}
 			c.val(kv[0])
 			c.sb.WriteString(":")
 			c.val(kv[1])
+		}
+		// every route agrees: Items(), Keys(), iteration and Get
+		keys := x.Keys()
+		it := x.Iterate()
+		var k starlark.Value
+		j := 0
+		for ; it.Next(&k); j++ {
+			if j >= len(items) || j >= len(keys) || !sameKey(k, keys[j]) || !sameKey(k, items[j][0]) {
+				c.sb.WriteString("!!iteration/Keys/Items disagree")
+				break
+			}
+			if v, found, err := x.Get(k); err != nil || !found || (ptrKey(v) != nil && ptrKey(v) != ptrKey(items[j][1])) {
+				c.sb.WriteString("!!Get disagrees with Items")
+				break
+			}
+		}
+		it.Done()
+		if j != len(items) || len(keys) != len(items) || x.Len() != len(items) {
+			c.sb.WriteString("!!lengths disagree")
 		}
 		c.sb.WriteString("}")
 	case *starlark.Set:
